@@ -11,6 +11,7 @@ suite compares its results bit for bit with the crate.  This file adds the facts
 range is used and about disabled normalisation, and restates the main results.
 -/
 import E57.Proofs.Normalise
+import E57.Proofs.SoftFloat
 namespace E57.C13
 open E57 FloatOps IEEELike
 
